@@ -53,6 +53,16 @@ type script struct {
 	cancelled func() bool
 	cur       []byte
 	onAttempt func(n int)
+	// timeoutClass: the injected transient failures are timeouts of ONE request (errors that wrap
+	// context.DeadlineExceeded, as http.Client.Timeout and net deadlines produce) while the cycle's context is alive
+	timeoutClass bool
+}
+
+func (s *script) injected(what string) error {
+	if s.timeoutClass {
+		return fmt.Errorf("injected: %s: request timed out: %w", what, context.DeadlineExceeded)
+	}
+	return errors.New("injected: " + what)
 }
 
 func (s *script) witnessCP(at int) []byte {
@@ -88,7 +98,7 @@ func (s *script) GetLatestCheckpoint(ctx context.Context, id string) ([]byte, er
 	if s.fail("get") {
 		e.Err = "injected"
 		s.events = append(s.events, e)
-		return nil, errors.New("injected: witness unavailable")
+		return nil, s.injected("witness unavailable")
 	}
 	e.Ret = s.cur
 	s.events = append(s.events, e)
@@ -105,7 +115,7 @@ func (s *script) Update(ctx context.Context, id string, old uint64, cp []byte, p
 	if s.fail("update") {
 		e.Err = "injected"
 		s.events = append(s.events, e)
-		return nil, errors.New("injected: update failed")
+		return nil, s.injected("update failed")
 	}
 	n, _ := refnote.Parse(cp)
 	ret := refnote.Assemble(n.Text, n.Sigs[0].Line, fmt.Sprintf("— witness.example %s", "BBBBBBBBBBBBBBBBBBBBBBBBBBBBBBBBBBBBBBBBBBBBBBBBBBBBBBBBBBBBBBBBBBBBBBBBBBBBBBBBBBBBBBBBBBBBBBBB"))
@@ -223,7 +233,7 @@ func opts(l *gen.Log, s *script, w feeder.Witness, logBranch int, logSize uint64
 					mu.Lock()
 					*evs = append(*evs, e)
 					mu.Unlock()
-					return nil, errors.New("injected: log unavailable")
+					return nil, s.injected("log unavailable")
 				}
 			}
 			p := l.Branches[logBranch].Consistency(from.Size, to.Size)
@@ -315,7 +325,7 @@ func eq(a, b [][]byte) bool {
 func faults(run *ev.Run, unit int64, r *rand.Rand, scen string, pat []string) {
 	l := newLog(r)
 	logSize := uint64(20 + r.IntN(20))
-	s := &script{l: l, failAt: pat}
+	s := &script{l: l, failAt: pat, timeoutClass: unit%2 == 1}
 	switch scen {
 	case "first_use":
 		s.witSizes = []int64{-1}
